@@ -260,8 +260,13 @@ def exec_fake(sc):
                 expect = False
         if kind == 'script':
             with GS.FakePeer(script):
-                env3 = SystemGPGEnvironment()
-                rb = call(lambda: m2.load(io.StringIO(SIGNED), verify_openpgp=True, openpgp_env=env3))
+                # the SAME environment object that accepted the text a moment ago (the backend's answer has changed:
+                # key revoked or expired in the meantime, another keyring): it must ask again
+                rb = call(lambda: m2.load(io.StringIO(SIGNED), verify_openpgp=True, openpgp_env=env2))
+                rv = call(lambda: env2.verify_file(io.StringIO(SIGNED)))
+            if first_ok and not dontcare and not accept and rv[0] == 'ok':
+                violations.append(viol('sig.stale-after-reload', 'the environment that had accepted this text returned signature data again '
+                                       'although the backend now reports %r exit %r' % (sc['seq'], sc.get('rc')), sig='env'))
             expect = bool(m.openpgp_signed)       # what a fresh object reports for the same text and the same reports
         counters['reload.' + kind] = 1
         out += ['reload', kind, rb[0], bool(m2.openpgp_signed)]
